@@ -21,7 +21,7 @@ PadHolds      == Fn = "pad"    => PadOK(in, w, PadAlg(in, w))
 IndentHolds   == Fn = "indent" => /\ IndentOK(in, <<A, SpCell>>, h = 1, IndentAlg(in, <<A, SpCell>>, h = 1))
 SnipHolds     == Fn = "snip"   => (LinesWithin(in, w) => SnipOK(in, w, h, Ell, SnipAlg(in, w, h, Ell)))
 SnipAfterWrap == Fn = "snip"   => LET t == WrapAlg(in, w) IN SnipOK(t, w, h, Ell, SnipAlg(t, w, h, Ell))
-ApplyHolds    == Fn = "apply"  => ApplyOK(in, "9", ApplyAlg(in, "9"))
+ApplyHolds    == Fn = "apply"  => ApplyOK(in, "9", ApplyAlg(in, "9")) /\ ApplyOK(in, "1", ApplyAlg(in, "1"))
 (* wrapping what was padded keeps the padding (the comment in ansi.Wrap), and is idempotent *)
 WrapIdempotent == Fn = "wrap"  => LET t == WrapAlg(in, w) IN WrapAlg(t, w) = t
 (* generation: every text once, as a string of codes a (plain glyph), b (styled glyph), s, n *)
